@@ -510,20 +510,30 @@ qlisttbl_data_t *qlisttbl_getmulti(qlisttbl_t *tbl, const char *name, bool newme
 
     qlisttbl_obj_t obj;
     memset((void *)&obj, 0, sizeof(obj)); // must be cleared before call
+    bool nomem = false;  // an allocation failed, nothing is returned
     qlisttbl_lock(tbl);
-    while (tbl->getnext(tbl, &obj, name, newmem) == true) {
+    while (true) {
+        if (tbl->getnext(tbl, &obj, name, newmem) == false) {
+            if (errno == ENOMEM) nomem = true;
+            break;
+        }
         numfound++;
 
         // allocate object array.
         if (numfound >= allocobjs) {
-            if (allocobjs == 0) allocobjs = 10;  // start from 10
-            else allocobjs *= 2;  // double size
-            objs = (qlisttbl_data_t *)realloc(objs, sizeof(qlisttbl_data_t) * allocobjs);
-            if (objs == NULL) {
+            size_t newalloc = (allocobjs == 0) ? 10 : allocobjs * 2;
+            qlisttbl_data_t *newobjs = (qlisttbl_data_t *)realloc(objs, sizeof(qlisttbl_data_t) * newalloc);
+            if (newobjs == NULL) {
                 DEBUG("qlisttbl->getmulti(): Memory reallocation failure.");
-                errno = ENOMEM;
+                if (newmem == true) {
+                    free(obj.name);
+                    free(obj.data);
+                }
+                nomem = true;
                 break;
             }
+            objs = newobjs;
+            allocobjs = newalloc;
         }
 
         // copy reference
@@ -542,6 +552,12 @@ qlisttbl_data_t *qlisttbl_getmulti(qlisttbl_t *tbl, const char *name, bool newme
         memset((void *)newobj, '\0', sizeof(qlisttbl_data_t));
         newobj->type = 0;  // mark, end of objects
     }
+    if (nomem == true) {
+        // release what was collected so far, the result would be incomplete.
+        qlisttbl_freemulti(objs);
+        objs = NULL;
+        numfound = 0;
+    }
     qlisttbl_unlock(tbl);
 
     // return found counter
@@ -549,7 +565,9 @@ qlisttbl_data_t *qlisttbl_getmulti(qlisttbl_t *tbl, const char *name, bool newme
         *numobjs = numfound;
     }
 
-    if (numfound == 0) {
+    if (nomem == true) {
+        errno = ENOMEM;
+    } else if (numfound == 0) {
         errno = ENOENT;
     }
 
@@ -751,6 +769,7 @@ bool qlisttbl_getnext(qlisttbl_t *tbl, qlisttbl_obj_t *obj, const char *name,
     uint32_t hash = (name != NULL) ? qhashmurmur3_32(name, strlen(name)) : 0;
 
     bool ret = false;
+    bool nomem = false;
     while (cont != NULL) {
         if (name == NULL || tbl->namematch(cont, name, hash) == true) {
             if (newmem == true) {
@@ -761,7 +780,7 @@ bool qlisttbl_getnext(qlisttbl_t *tbl, qlisttbl_obj_t *obj, const char *name,
                     if (obj->data != NULL) free(obj->data);
                     obj->name = NULL;
                     obj->data = NULL;
-                    errno = ENOMEM;
+                    nomem = true;
                     break;
                 }
                 memcpy(obj->data, cont->data, cont->size);
@@ -783,7 +802,7 @@ bool qlisttbl_getnext(qlisttbl_t *tbl, qlisttbl_obj_t *obj, const char *name,
     qlisttbl_unlock(tbl);
 
     if (ret == false) {
-        errno = ENOENT;
+        errno = (nomem == true) ? ENOMEM : ENOENT;
     }
 
     return ret;
